@@ -62,7 +62,8 @@ class Obligation:
         self.path = path
 
     def key(self):
-        return (self.name, self.site, hash(tuple(p.sexpr() for p in self.pc)), self.goal.sexpr())
+        # z3 terms are hash-consed: AST ids identify them structurally within one run
+        return (self.name, self.site, tuple(p.get_id() for p in self.pc), self.goal.get_id())
 
 
 class LoopSpec:
@@ -156,6 +157,7 @@ class Ex:
             self.ghost: dict = {}
             self.scope = Scope()
             self.held = []
+            self._decided = {}
             self.stats.paths += 1
             try:
                 try:
@@ -263,6 +265,14 @@ class Ex:
             return True
         if z3.is_false(cond):
             return False
+        cid = cond.get_id()
+        if cid in self._decided:
+            return self._decided[cid]
+        r = self._branch(cond, label)
+        self._decided[cid] = r
+        return r
+
+    def _branch(self, cond, label):
         # replay first (no feasibility check needed: decided when first explored)
         if self._pos < len(self._trace):
             c = self.choose(2, label)
